@@ -399,6 +399,7 @@ class Session:
     def handle_tls_13_application_record(self, record: TlsRecord, isserver):
         try:
             plaintext = self.decryptor.decrypt(record, isserver)
+            plaintext = plaintext.rstrip(b"\x00")  # RFC 8446 5.4: zero padding follows the content type
             subrecord_type = plaintext[-1:]
             if subrecord_type == b'\x16':
                 self.handle_decrypted_tls_13_handshake_record(plaintext[:-1], isserver)
